@@ -179,8 +179,103 @@ def r09c(ctx):
     ctx.floor("R09c", n, 1, "per-format flags")
 
 
+PARSE_NAMES = {"load", "loads", "load_all", "safe_load", "safe_load_all", "full_load"}
+
+
+def _truth_tested(fn):
+    """Expressions whose truth value (rather than whose value) decides something in fn."""
+    out = []
+
+    def visit(e, tested):
+        if isinstance(e, ast.BoolOp):
+            for i, v in enumerate(e.values):
+                visit(v, tested or i < len(e.values) - 1)
+        elif isinstance(e, ast.UnaryOp) and isinstance(e.op, ast.Not):
+            visit(e.operand, True)
+        elif isinstance(e, ast.IfExp):
+            visit(e.test, True)
+            visit(e.body, tested)
+            visit(e.orelse, tested)
+        elif tested:
+            out.append(e)
+    for n in walk_no_nested(fn):
+        if isinstance(n, (ast.If, ast.While)):
+            visit(n.test, True)
+        elif isinstance(n, ast.comprehension):
+            for c in n.ifs:
+                visit(c, True)
+        elif isinstance(n, (ast.BoolOp, ast.IfExp)) and not isinstance(parent(n), (ast.BoolOp, ast.IfExp, ast.If, ast.While)) \
+                and not (isinstance(parent(n), ast.UnaryOp)):
+            visit(n, False)
+    return out
+
+
+def r09e(ctx):
+    m = ctx.model
+    ctx.rule("R09e", "loaders do not branch on the truth value of document content: what a third-party parser returned for a "
+                     "document (the value of load(...), an element of load_all(...)) reaches json.build_tree unchanged; only "
+                     "counts (len), identity (is None) and types may be tested - `doc or None`, `docs and docs[0] or X`, "
+                     "`if not doc` turn [], {}, 0, false and '' into something else for one format only")
+    fts = m.filetypes()
+    n = 0
+    done = set()
+    for q, info in sorted(fts.items()):
+        if info["name"] not in FORMATS:
+            continue
+        for f in loader_chain(m, m.method(q, "build_tree")):
+            if f.qual in done:
+                continue
+            done.add(f.qual)
+            kind = {}      # local name -> "DOC" | "DOCS"
+
+            def classify(e):
+                if isinstance(e, ast.Call):
+                    nm = (call_name(e) or "").rsplit(".", 1)[-1]
+                    r = m.resolve_expr(f.module, e.func)
+                    ext = bool(r and r[0] and r[0][0] == "ext")
+                    if ext and nm in PARSE_NAMES:
+                        return "DOCS" if nm.endswith("_all") else "DOC"
+                    if nm in ("list", "tuple", "iter") and len(e.args) == 1 and classify(e.args[0]) == "DOCS":
+                        return "DOCS"
+                    if nm == "next" and e.args and classify(e.args[0]) == "DOCS":
+                        return "DOC"
+                    return None
+                if isinstance(e, ast.Name):
+                    return kind.get(e.id)
+                if isinstance(e, ast.Subscript) and classify(e.value) == "DOCS":
+                    return "DOCS" if isinstance(e.slice, ast.Slice) else "DOC"
+                return None
+            for _ in range(3):
+                for a in walk_no_nested(f.node):
+                    if isinstance(a, (ast.Assign, ast.AnnAssign)) and a.value is not None:
+                        t = a.targets[0] if isinstance(a, ast.Assign) else a.target
+                        k = classify(a.value)
+                        if isinstance(t, ast.Name) and k:
+                            kind[t.id] = k
+                    elif isinstance(a, ast.For) and isinstance(a.target, ast.Name) and classify(a.iter) == "DOCS":
+                        kind[a.target.id] = "DOC"
+            parses = [c for c in walk_no_nested(f.node) if isinstance(c, ast.Call) and classify(c) in ("DOC", "DOCS")
+                      and (call_name(c) or "").rsplit(".", 1)[-1] in PARSE_NAMES]
+            if not parses:
+                continue
+            n += len(parses)
+            bad = [e for e in _truth_tested(f.node) if classify(e) == "DOC"]
+            if bad:
+                for e in bad:
+                    ctx.violation("R09e", f.file, f.short, e, f"truth value of document `{norm(e, 30)}`",
+                                  f"`{norm(e, 40)}` is a parsed document and its truth value steers the loader "
+                                  f"(`{norm(parent(e), 70)}`): a falsy document ([], {{}}, 0, false, '') is replaced or routed "
+                                  f"differently in the {info['name']} loader only, so the same data loaded from another format "
+                                  f"builds a different tree")
+            else:
+                ctx.proved("R09e", f.file, f.short, parses[0], "documents reach json.build_tree untested",
+                           f"{len(parses)} parser call(s); no parsed document is used for its truth value")
+    ctx.floor("R09e", n, 4, "third-party parser calls on loader paths")
+
+
 def run(ctx):
     r09a(ctx)
+    r09e(ctx)
     r09b(ctx)
     r09c(ctx)
     from . import c14
